@@ -12,7 +12,7 @@ INF = None  # unbounded end of an interval
 class AVal:
     """Abstract value of an expression."""
 
-    __slots__ = ("lin", "lo", "hi", "length", "kind", "elems", "const", "taint", "maybe_none", "src", "elem")
+    __slots__ = ("lin", "lo", "hi", "length", "kind", "elems", "const", "taint", "maybe_none", "src", "elem", "fields", "ubound")
 
     def __init__(self, lin: Optional[Lin] = None, lo: Optional[int] = None, hi: Optional[int] = None,
                  length: Optional[Lin] = None, kind: Optional[str] = None, elems: Optional[List["AVal"]] = None,
@@ -29,6 +29,8 @@ class AVal:
         self.maybe_none = maybe_none
         self.src = src  # where an interval comes from (for messages)
         self.elem = elem  # abstract element of a homogeneous container
+        self.fields = None  # dataclass constructor results: field name -> AVal
+        self.ubound = None  # Lin: value <= ubound (relational upper bound, e.g. x % n <= n - 1)
 
     def __repr__(self) -> str:
         bits = []
@@ -77,8 +79,11 @@ class AVal:
         return self
 
     def copy(self) -> "AVal":
-        return AVal(self.lin, self.lo, self.hi, self.length, self.kind, self.elems, self.const, self.taint,
-                    self.maybe_none, self.src, self.elem)
+        c = AVal(self.lin, self.lo, self.hi, self.length, self.kind, self.elems, self.const, self.taint,
+                 self.maybe_none, self.src, self.elem)
+        c.fields = self.fields
+        c.ubound = self.ubound
+        return c
 
 
 def iv_add(a: Tuple, b: Tuple) -> Tuple:
